@@ -299,6 +299,8 @@ def quasi_exact(run, rng):
     for _ in range(n):
         rule = rng.choice(['wigm', 'meek', 'warren'])
         p = gen.plain(rng, maxc=5, maxb=8)
+        if rule != 'wigm' and rng.random() < 0.4:
+            p = gen.add_equal_ranks(rng, gen.plain(rng, maxc=4, maxb=5))
         pr = rng.choice([6, 9, 12]); g = rng.choice([3, 6, 9])
         og = dict(rule=rule, arithmetic='guarded', precision=pr, guard=g); orr = dict(rule=rule, arithmetic='rational')
         if rule != 'wigm':
